@@ -179,7 +179,8 @@ def mode_voc(ctx: Ctx, mode: dict) -> tuple[Optional[set], bool]:
         # only satisfiability (and costs) can be compared
         if not any(s.ast_type in (ASTType.ShowSignature, ASTType.ShowTerm) for s in ctx.source):
             return set(), False
-        return None, True
+        sigs = {(("" if s.positive else "-") + s.name, s.arity) for s in ctx.source if s.ast_type == ASTType.ShowSignature}
+        return sigs, True
     raise ValueError(kind)
 
 
